@@ -292,6 +292,37 @@ pub fn check_bad_hash(depth: u8, h: u64) -> Vec<Viol> {
   t("nested::path_along_cell_edge", guarded(move || nested::path_along_cell_edge(depth, h, &Cardinal::S, false, 2)).is_ok());
   t("nested::grid", guarded(move || nested::grid(depth, h, 2)).is_ok());
   t("Layer::center_of_projected_cell", guarded(move || layer.center_of_projected_cell(h)).is_ok());
+  // "rejected" holds for EVERY value of the other arguments: their small domains in full,
+  // degenerate values included (no segment, empty direction set, same vertex twice)
+  let card = |k: u8| Cardinal::from_index(k);
+  for n in [0u32, 1, 2, 5] {
+    for c in 0..4u8 {
+      for cw in [false, true] {
+        t("nested::path_along_cell_edge", guarded(move || nested::path_along_cell_edge(depth, h, &card(c), cw, n)).is_ok());
+      }
+      for c2 in 0..4u8 {
+        for incl in [false, true] {
+          t("nested::path_along_cell_side", guarded(move || nested::path_along_cell_side(depth, h, &card(c), &card(c2), incl, n)).is_ok());
+        }
+      }
+    }
+    t("nested::grid", guarded(move || nested::grid(depth, h, n as u16)).is_ok());
+  }
+  for mask in 0..16u8 {
+    let mut set = CardinalSet::new();
+    for k in 0..4u8 {
+      if mask >> k & 1 == 1 {
+        set.set(card(k), true);
+      }
+    }
+    t("Layer::vertices_map", guarded(move || layer.vertices_map(h, set).get(Cardinal::S).is_some()).is_ok());
+  }
+  for c in 0..4u8 {
+    t("Layer::vertex", guarded(move || layer.vertex(h, card(c))).is_ok());
+  }
+  for (dx, dy) in [(0.0, 0.0), (1.0, 1.0), (0.0, 1.0), (0.25, 0.75)] {
+    t("nested::sph_coo", guarded(move || nested::sph_coo(depth, h, dx, dy)).is_ok());
+  }
   out
 }
 
